@@ -21,7 +21,75 @@ an arbitrary statement sequence with arbitrarily ordered pins, `Props/C04Order.l
 namespace L21.Lef
 open L21.LefLex L21.LefEnum L21.Gen
 
+/-! ## UNITS sub-statements in any order -/
+
+inductive UStmt where
+  | time (d : Dec) | cap (d : Dec) | res (d : Dec) | power (d : Dec) | current (d : Dec) | voltage (d : Dec)
+  | freq (d : Dec) | dbu (v : Int)
+
+def wUStmt : UStmt → List Tok
+  | .time d => [kw "Time", kw "Nanoseconds", num d, semiTok]
+  | .cap d => [kw "Capacitance", kw "Picofarads", num d, semiTok]
+  | .res d => [kw "Resistance", kw "Ohms", num d, semiTok]
+  | .power d => [kw "Power", kw "Milliwatts", num d, semiTok]
+  | .current d => [kw "Current", kw "Milliamps", num d, semiTok]
+  | .voltage d => [kw "Voltage", kw "Volts", num d, semiTok]
+  | .freq d => [kw "Frequency", kw "Megahertz", num d, semiTok]
+  | .dbu v => [kw "Database", kw "Microns", num ⟨v, 0⟩, semiTok]
+
+def ustmtOk : UStmt → Bool
+  | .dbu v => dbuOk v
+  | .time d | .cap d | .res d | .power d | .current d | .voltage d | .freq d => decOk d
+
+def applyU (u : Units) : UStmt → Units
+  | .time d => { u with time := some d }
+  | .cap d => { u with cap := some d }
+  | .res d => { u with res := some d }
+  | .power d => { u with power := some d }
+  | .current d => { u with current := some d }
+  | .voltage d => { u with voltage := some d }
+  | .freq d => { u with freq := some d }
+  | .dbu v => { u with dbu := some v }
+
+theorem unitsBody_stmt (f : Nat) (u : Units) (s : UStmt) (T : List Tok) (h : ustmtOk s = true) :
+    unitsBody (f + 1) u (wUStmt s ++ T) = unitsBody f (applyU u s) T := by
+  cases s with
+  | time d => exact un_time f u d T h
+  | cap d => exact un_cap f u d T h
+  | res d => exact un_res f u d T h
+  | power d => exact un_power f u d T h
+  | current d => exact un_current f u d T h
+  | voltage d => exact un_voltage f u d T h
+  | freq d => exact un_freq f u d T h
+  | dbu v => exact un_dbu f u v T h
+
+theorem unitsBody_stmts (T : List Tok) : ∀ (ss : List UStmt) (u : Units) (f : Nat), ss.length ≤ f → ss.all ustmtOk = true →
+    unitsBody f u (ss.flatMap wUStmt ++ T) = unitsBody (f - ss.length) (ss.foldl applyU u) T := by
+  intro ss
+  induction ss with
+  | nil => intro u f _ _; simp
+  | cons s r ih =>
+    intro u f hf hok
+    obtain ⟨n, rfl⟩ : ∃ n, f = n + 1 := ⟨f - 1, by simp at hf; omega⟩
+    simp only [List.all_cons, Bool.and_eq_true] at hok
+    simp only [List.flatMap_cons, List.append_assoc, List.foldl_cons]
+    rw [unitsBody_stmt n u s _ hok.1, ih _ n (by simp at hf; omega) hok.2]
+    simp [Nat.add_sub_add_right]
+
+theorem flatMap_wUStmt_length (ss : List UStmt) : ss.length ≤ (ss.flatMap wUStmt).length :=
+  flatMap_len_le wUStmt (by intro a; cases a <;> simp [wUStmt]) ss
+
+/-- **UNITS sub-statements in every order, every repetition** are read to the fold of their updates -/
+theorem c04_units_any_order (ss : List UStmt) (T : List Tok) (F : Nat) (h : ss.all ustmtOk = true)
+    (hF : (ss.flatMap wUStmt).length + 1 ≤ F) :
+    unitsBody F {} (ss.flatMap wUStmt ++ kw "End" :: kw "Units" :: T) = some (ss.foldl applyU {}, T) := by
+  have hl := flatMap_wUStmt_length ss
+  rw [unitsBody_stmts _ ss {} F (by omega) h]
+  obtain ⟨g, hg⟩ : ∃ g, F - ss.length = g + 1 := ⟨F - ss.length - 1, by omega⟩
+  rw [hg, un_end]
+
 inductive LStmt where
+  | unitsS (us : List UStmt)
   | version (d : Dec)
   | busbit (p : Char × Char)
   | divider (c : Char)
@@ -45,6 +113,7 @@ def wLStmt : LStmt → List Tok
   | .ncs e => [kw "NamesCaseSensitive", en "LefOnOff" e, semiTok]
   | .nowire e => [kw "NoWireExtensionAtPin", en "LefOnOff" e, semiTok]
   | .units u => wUnits u
+  | .unitsS us => kw "Units" :: (us.flatMap wUStmt ++ [kw "End", kw "Units"])
   | .mfg d => [kw "ManufacturingGrid", num d, semiTok]
   | .ums e => [kw "UseMinSpacing", kw "Obs", en "LefOnOff" e, semiTok]
   | .clearance e => [kw "ClearanceMeasure", en "LefClearanceStyle" e, semiTok]
@@ -63,6 +132,7 @@ def applyL (lib : Lib) : LStmt → Lib
   | .ncs e => { lib with namesCaseSensitive := some e }
   | .nowire e => { lib with noWireExt := some e }
   | .units u => { lib with units := some u }
+  | .unitsS us => { lib with units := some (us.foldl applyU {}) }
   | .mfg d => { lib with mfgGrid := some d }
   | .ums e => { lib with useMinSpacing := some e }
   | .clearance e => { lib with clearance := some e }
@@ -79,6 +149,7 @@ def guardL (ver : Dec) (lib : Lib) : LStmt → Bool
   | .ncs e => isVariant "LefOnOff" e && !(v5p4.lt ver)
   | .nowire e => isVariant "LefOnOff" e
   | .units u => unitsOk u
+  | .unitsS us => us.all ustmtOk
   | .mfg d => decOk d
   | .ums e => isVariant "LefOnOff" e
   | .clearance e => isVariant "LefClearanceStyle" e
@@ -125,6 +196,21 @@ theorem lb_macro_stmts (f : Nat) (ver : Dec) (lib : Lib) (n : Str) (ss : List MS
   generalize wMacroStmts n ss ++ T = ts at hp hpk hl hne
   rw [libBody]; simp [hpk, hp, hl, hne]
 
+theorem lb_units_stmts (f : Nat) (ver : Dec) (lib : Lib) (us : List UStmt) (T : List Tok) (h : us.all ustmtOk = true) :
+    libBody (f + 1) ver lib (kw "Units" :: (us.flatMap wUStmt ++ [kw "End", kw "Units"]) ++ T) =
+      libBody f ver { lib with units := some (us.foldl applyU {}) } T := by
+  have heq : kw "Units" :: (us.flatMap wUStmt ++ [kw "End", kw "Units"]) ++ T =
+      kw "Units" :: (us.flatMap wUStmt ++ kw "End" :: kw "Units" :: T) := by simp
+  rw [heq]
+  generalize hts : kw "Units" :: (us.flatMap wUStmt ++ kw "End" :: kw "Units" :: T) = ts
+  have hpk : peekKey ts = some "Units" := by subst hts; exact peekKey_kw _ _ k_Units
+  have htl : ts.tail = us.flatMap wUStmt ++ kw "End" :: kw "Units" :: T := by subst hts; rfl
+  have hl : T.length < ts.length := by subst hts; simp only [List.length_cons, List.length_append]; omega
+  have hne : ts.isEmpty = false := by subst hts; rfl
+  have hu := c04_units_any_order us T (ts.length + 1) h (by subst hts; simp only [List.length_cons, List.length_append]; omega)
+  rw [← htl] at hu
+  rw [libBody]; simp [hpk, hu, hl, hne]
+
 /-- one library statement: if the session admits it, the reader model makes exactly its update -/
 theorem libBody_stmt (f : Nat) (ver : Dec) (lib : Lib) (s : LStmt) (T : List Tok) (h : guardL ver lib s = true) :
     libBody (f + 1) ver lib (wLStmt s ++ T) = libBody f (verAfter ver s) (applyL lib s) T := by
@@ -139,6 +225,7 @@ theorem libBody_stmt (f : Nat) (ver : Dec) (lib : Lib) (s : LStmt) (T : List Tok
     exact lb_ncs f ver lib e T h.1 h.2
   | nowire e => exact lb_nowire f ver lib e T h
   | units u => exact lb_units f ver lib u T h
+  | unitsS us => exact lb_units_stmts f ver lib us T h
   | mfg d => exact lb_mfg f ver lib d T h
   | ums e => exact lb_ums f ver lib e T h
   | clearance e => exact lb_clearance f ver lib e T h
@@ -225,7 +312,7 @@ def LStmt.busbit? : LStmt → Option (Char × Char) | .busbit d => some d | _ =>
 def LStmt.divider? : LStmt → Option Char | .divider d => some d | _ => none
 def LStmt.ncs? : LStmt → Option String | .ncs d => some d | _ => none
 def LStmt.nowire? : LStmt → Option String | .nowire d => some d | _ => none
-def LStmt.units? : LStmt → Option Units | .units d => some d | _ => none
+def LStmt.units? : LStmt → Option Units | .units d => some d | .unitsS us => some (us.foldl applyU {}) | _ => none
 def LStmt.mfg? : LStmt → Option Dec | .mfg d => some d | _ => none
 def LStmt.ums? : LStmt → Option String | .ums d => some d | _ => none
 def LStmt.clearance? : LStmt → Option String | .clearance d => some d | _ => none
